@@ -34,7 +34,7 @@ def main(tier):
         return None
 
     for c in cfgs:
-        sc.explore(chk, c, variants=("as_is", "onebyte", "maxread", "mmap", "multiline", "heap"), timeout=3000, extra_judge=cross)
+        sc.explore(chk, c, variants=("as_is", "onebyte", "maxread", "mmap", "multiline", "multiline_nm", "heap"), timeout=3000, extra_judge=cross)
     for key, g in groups.items():
         if len(g) > 1:
             inp, cfg, path = json.loads(key)
